@@ -224,6 +224,10 @@ func replayLine(line string) {
 	case "ar":
 		c := parseArith(f)
 		emit(runArith(c))
+	case "ndp":
+		k, _ := strconv.Atoi(f[1])
+		dl, _ := strconv.Atoi(f[2])
+		emit(runNumDigitsPow10(k, dl, len(f) > 3 && f[3] == "1"))
 	case "nd":
 		b, _ := new(big.Int).SetString(f[1], 16)
 		emit(runNumDigits(b))
